@@ -48,7 +48,7 @@ func (Engine) Meta() simrt.Meta {
 		},
 		RealCode:    []string{"internal/ebnf/lexer", "internal/ebnf/parser (+ast, spec)", "internal/regex/parser (+nfa, ast)", "Spec.DFA / LALRParsingTable", "real emerge binary built from the current tree (CLI tier: cmd/emerge, internal/command, generator)", "moorara/algo"},
 		Stubs:       []string{"io.Reader (SimReader with all fault kinds)", "callbacks (trivial)", "real file system for the CLI tier (no fault injection there; the injecting CLI tier is the E-FS engine)"},
-		FaultKinds:  []string{"fault_eof_truncation", "fault_read_error", "fault_read_error_with_data", "fault_short_read", "fault_zero_read", "fault_data_with_eof", "fault_byte_mutation"},
+		FaultKinds:  []string{"fault_eof_truncation", "fault_read_error", "fault_read_error_with_data", "fault_read_error_kind_sim_eio", "fault_read_error_kind_unexpected_eof", "fault_read_error_kind_closed_pipe", "fault_read_error_kind_path_error", "fault_short_read", "fault_zero_read", "fault_data_with_eof", "fault_byte_mutation"},
 		CaseTimeout: 400 * time.Second,
 	}
 }
@@ -111,10 +111,12 @@ func drawPlan(t *simrt.Tape, n, B int) simrt.ReadPlan {
 	case 0, 1: // full
 	case 2:
 		p.ErrCall = t.Draw(calls)
+		p.ErrKind = t.Draw(len(simrt.ReadErrors))
 	case 3:
 		p.ErrCall = t.Draw(calls)
 		p.ErrWithData = true
 		p.ErrData = 1 + t.Draw(B)
+		p.ErrKind = t.Draw(len(simrt.ReadErrors))
 	case 4:
 		p.Short = true
 		p.ChunkSeed = uint64(t.Draw(1 << 30))
@@ -134,6 +136,7 @@ func drawPlan(t *simrt.Tape, n, B int) simrt.ReadPlan {
 		if t.Chance(1, 2) {
 			p.DataEOF = true
 		}
+		p.ErrKind = t.Draw(len(simrt.ReadErrors))
 	}
 	return p
 }
@@ -147,6 +150,7 @@ type callResult struct {
 	panicV  any
 	stack   string
 	reader  *simrt.SimReader
+	plan    simrt.ReadPlan
 	elapsed time.Duration
 }
 
@@ -154,6 +158,7 @@ var entryNames = []string{"spec.Parse", "ebnf/ast.Parse", "Parser.Parse", "Parse
 
 func callEntry(which int, text []byte, plan simrt.ReadPlan) (cr callResult) {
 	cr.name = entryNames[which]
+	cr.plan = plan
 	rd := simrt.NewSimReader(text, plan)
 	cr.reader = rd
 	began := time.Now()
@@ -247,7 +252,7 @@ func judge(cr callResult, textLen, B int) (string, string) {
 	rd := cr.reader
 	if rd != nil {
 		if rd.ErrDelivered && cr.err == nil {
-			return "read_error_swallowed:" + cr.name, fmt.Sprintf("%s: the reader delivered %v at call %d but the call reported success", cr.name, simrt.ErrSimIO, rd.Calls)
+			return "read_error_swallowed:" + cr.name, fmt.Sprintf("%s: the reader delivered the error %q at call %d but the call reported success", cr.name, cr.plan.Err().Error(), rd.Calls)
 		}
 		// progress is bounded by the input length: every read either returns >= 1 byte, is one of the
 		// injected zero-length reads, or ends the stream
@@ -288,7 +293,7 @@ func outcomeClass(cr callResult) string {
 	switch {
 	case cr.err == nil:
 		return "ok"
-	case strings.Contains(cr.err.Error(), simrt.ErrSimIO.Error()):
+	case simrt.IsInjected(cr.err):
 		return "io_error"
 	case strings.Contains(cr.err.Error(), "lexical error"):
 		return "lexical_error"
@@ -339,6 +344,9 @@ func countFaults(res *simrt.Result, plan simrt.ReadPlan, rd *simrt.SimReader, cu
 	if rd != nil {
 		if rd.ErrDelivered && !plan.ErrWithData {
 			res.Count("fault_read_error", 1)
+		}
+		if rd.ErrDelivered {
+			res.Count([]string{"fault_read_error_kind_sim_eio", "fault_read_error_kind_unexpected_eof", "fault_read_error_kind_closed_pipe", "fault_read_error_kind_path_error"}[plan.ErrKind%4], 1)
 		}
 		if rd.ErrDelivered && plan.ErrWithData {
 			res.Count("fault_read_error_with_data", 1)
